@@ -169,7 +169,7 @@ pub fn run(tier: Tier, seed: u64) -> i32 {
     }
 
     // (d) codec parameters the API exposes = what the bitstream encodes, for every value of the packed bytes
-    let third: Vec<u8> = if tier == Tier::Thorough { (0..=255u8).collect() } else { vec![0x00, 0x20, 0x40, 0x80, 0xa0, 0xe0, 0xff, 0x5a] };
+    let third: Vec<u8> = (0..=255u8).collect();
     let asc_res = (0..65536usize)
         .into_par_iter()
         .fold(Local::default, |mut l, ab| {
